@@ -28,7 +28,7 @@ def main(tier, seed):
     def cases():
         i = 0
         while True:
-            c = seqcommon.gen_case(seed, i, tier, focus='fail' if i % 3 else 'rels', tag='c13')
+            c = seqcommon.gen_case(seed, i, tier, focus=('rels', 'fail', 'mix', 'fail')[i % 4], tag='c13')
             c['want_op_calls'] = True
             c['_base'] = True
             if i % 3 == 0:
